@@ -265,6 +265,17 @@ def keepalive_oracle(ix: Index, scn: dict) -> list[Violation]:
     return out
 
 
+def any_msg(rng: random.Random) -> list:
+    """A device message of any type: half of the time one of the everyday ones, otherwise any defined type (empty payload)."""
+    if rng.random() < 0.5:
+        return pick(rng, MSGS)
+    from .c12 import _table
+
+    t = _table()
+    names = [t.by_id[i] for i in sorted(t.by_id) if t.by_id[i] != "DisconnectRequest"]
+    return [pick(rng, names), {}]
+
+
 MSGS = [["SensorStateResponse", {"key": 2, "state": 1.0}], ["SwitchStateResponse", {"key": 1, "state": True}], ["PingResponse", {}], ["SubscribeLogsResponse", {"message": "6c6f67"}], ["PingRequest", {}], ["GetTimeRequest", {}]]
 
 
@@ -301,7 +312,7 @@ def gen_c10(rng: random.Random, stalls: bool = False) -> dict:
     times = sorted(set(x for x in times if 0 < x < N * K))
     events = []
     for x in times:
-        events.append({"at": {"on": "state", "match": {"new": "CONNECTED"}, "delay": x}, "do": "dev", "act": {"msgs": [pick(rng, MSGS)], "latency": 0.0}})
+        events.append({"at": {"on": "state", "match": {"new": "CONNECTED"}, "delay": x}, "do": "dev", "act": {"msgs": [any_msg(rng)], "latency": 0.0}})
     end = (times[-1] if times else 0.0) + 14 * K + 5.0
     if stalls and rng.random() < 0.25:
         # one blocking callback that spans the pong deadline of a totally silent peer
@@ -323,7 +334,7 @@ def gen_c10(rng: random.Random, stalls: bool = False) -> dict:
         cuts = {"mode": "sizes", "sizes": [pick(rng, [1, 2, 3, 4, 5, 7]) for _ in range(rng.randint(1, 3))]}
         for ev in events:
             if ev.get("do") == "dev" and rng.random() < 0.5:
-                ev["act"]["msgs"] = ev["act"]["msgs"] + [pick(rng, MSGS) for _ in range(rng.randint(1, 3))]
+                ev["act"]["msgs"] = ev["act"]["msgs"] + [any_msg(rng) for _ in range(rng.randint(1, 3))]
     actors = [{"id": "a0", "at": {"t": 0.0}, "steps": [{"do": "connect", "login": rng.random() < 0.5}]}]
     if device.get("transport") != "noise" and not stalls and rng.random() < 0.08:
         # a dead device that no longer drains its socket while the application keeps sending: the transport goes above
